@@ -42,6 +42,9 @@ class Family:
         elif name == "coupled":      # regression coefficients (IWLS) given a log-scale moved by another kernel
             self.keys, self.init = ["beta"], {"beta": jnp.array([0.1, 0.2], jnp.float32), "ls": jnp.array(0.1, jnp.float32)}
             self.other = ["ls"]
+        elif name == "gamma_coupled":    # positive block (MH) whose rate is moved by another kernel
+            self.keys, self.init = ["x"], {"x": jnp.array([1.2, 0.7], jnp.float32), "r": jnp.array(0.2, jnp.float32)}
+            self.other = ["r"]
         else:
             raise KeyError(name)
 
@@ -66,6 +69,8 @@ class Family:
         if n == "gamma_mh":
             x = s["x"]
             return jnp.sum(2.0 * jnp.log(x) - 1.5 * x)
+        if n == "gamma_coupled":
+            return jnp.sum(2.0 * jnp.log(s["x"]) - jnp.exp(s["r"]) * s["x"]) - 0.5 * s["r"] ** 2
         if n == "coupled":
             r = jnp.asarray(YC, jnp.float32) - jnp.asarray(XC, jnp.float32) @ s["beta"]
             return (-len(YC) * s["ls"] - 0.5 * jnp.sum(r ** 2) / jnp.exp(2 * s["ls"]) - 0.05 * jnp.sum(s["beta"] ** 2)
@@ -90,6 +95,9 @@ class Family:
             s2 = np.exp(2 * ls)
             lp = -len(YC) * ls - 0.5 * np.sum(r ** 2) / s2 - 0.05 * np.sum(f ** 2) - 0.5 * ls ** 2
             return lp, XC.T @ r / s2 - 0.1 * f, XC.T @ XC / s2 + 0.1 * np.eye(2)
+        if n == "gamma_coupled":
+            r = float(ctx[0])
+            return float(np.sum(2.0 * np.log(f) - np.exp(r) * f) - 0.5 * r ** 2), None, None
         if n == "gauss1":
             return -0.5 * 1.7 * (f[0] - 0.4) ** 2, np.array([-1.7 * (f[0] - 0.4)]), np.array([[1.7]])
         if n == "gauss2":
@@ -222,4 +230,8 @@ def jobs(quick=True):
             js.append(dict(kernel="rw", family=f, step=s, seed=len(js)))
     for s in steps:
         js.append(dict(kernel="mh", family="gamma_mh", step=0.5 * s, seed=len(js)))
+    # the block's density depends on a quantity another kernel of the sequence moves between the transitions
+    for s in steps:
+        js.append(dict(kernel="rw", family="coupled", step=0.5 * s, seed=len(js)))
+        js.append(dict(kernel="mh", family="gamma_coupled", step=0.5 * s, seed=len(js)))
     return js
